@@ -31,6 +31,13 @@ def runSnapshot (lines : List String) : List String :=
   let vss := ((seeds.dropWhile (· != "vs")).drop 1).takeWhile (fun w => w != "solvs") |>.map nat!
   let solvs := ((seeds.dropWhile (· != "solvs")).drop 1).map nat!
   let sn := capture U names vss solvs
+  -- a problem that names version sets / unions / solvables the universe does not have is not an input of C16
+  -- (the shrinker must not reduce a failing case to one of these)
+  let refsOk := P.reqs.all (fun r => match r with
+      | .single v => (U.vsets.lookup v).isSome
+      | .union u => (U.unions.lookup u).isSome) &&
+    P.constraints.all (fun v => (U.vsets.lookup v).isSome) && P.soft.all (fun s => (U.solvs.lookup s).isSome)
+  if !refsOk then ["info not-wf"] else
   -- 1. the captured contents, before and after the serde round-trip
   let expSnap := dumpSnap "snap" sn
   let gotSnap := impl.filter (fun l => l.startsWith "snap-")
